@@ -306,6 +306,9 @@ class DMA(Command):
         self.in_tensor = in_tensor
         self.out_tensor = out_tensor
         self.box = box
+        # SHRAM address that this transfer of a LUT writes to; set by lut.optimize_high_level_cmd_stream. The table of
+        # one operation can be transferred several times (once per stripe) to different slots
+        self.lut_address = None
 
     def __str__(self):
         return f"<DMA: name={self.ps.name}, in={self.in_tensor.name}, out={self.out_tensor.name} box={self.box}>"
